@@ -11,8 +11,8 @@
   __CPROVER_requires(IORA_TRUE && iora_exc == EXC_NONE) \
   __CPROVER_requires(__CPROVER_is_fresh(self, sizeof(*self))) \
   __CPROVER_requires(!self->_mutex.held && self->_queue.guard == &self->_mutex) \
-  __CPROVER_requires(BQ_INV(self) && self->_queue.hi < SIZE_MAX - 1 && self->_maxSize >= 1)
-#define BQ_ASSIGNS_MON self->_mutex.held, self->_queue.lo, self->_queue.hi, self->_queue.w, self->_queue.other, self->_closed, LIN
+  __CPROVER_requires(BQ_INV(self) && self->_queue.hi < SIZE_MAX - 1 && self->_maxSize >= 1 && !LIN.waited)
+#define BQ_ASSIGNS_MON G_ld, self->_mutex.held, self->_queue.lo, self->_queue.hi, self->_queue.w, self->_queue.other, self->_closed, LIN
 #define OLD_LIVE(k) (__CPROVER_old(self->_queue.lo) <= (k) && (k) < __CPROVER_old(self->_queue.hi))
 #define LIN_LIVE(k) (LIN.lo <= (k) && (k) < LIN.hi)
 #define LIN_IS_ENTRY (LIN.lo == __CPROVER_old(self->_queue.lo) && LIN.hi == __CPROVER_old(self->_queue.hi) && LIN.closed == __CPROVER_old(self->_closed) \
@@ -42,61 +42,107 @@ void h_ctor(void)
   __CPROVER_requires(__CPROVER_is_fresh(item, sizeof(*item))) \
   __CPROVER_assigns(BQ_ASSIGNS_MON, self->_condNotEmpty.n_one)
 
-/* clauses common to every put (each on its own line so that a failing clause is identified by its text) */
-#define PUT_COMMON \
-/* P1 lock released on every path       */ __CPROVER_ensures(!self->_mutex.held) \
-/* P2 capacity bound / monitor invariant */ __CPROVER_ensures(BQ_INV(self)) \
-/* P3 accepted iff open and not full    */ __CPROVER_ensures(__CPROVER_return_value == (!LIN.closed && LIN.hi - LIN.lo < self->_maxSize)) \
-/* P4 accepted: exactly one item more   */ __CPROVER_ensures(__CPROVER_return_value ==> (self->_queue.hi == LIN.hi + 1 && self->_queue.lo == LIN.lo)) \
-/* P5 ... it is the argument, at the back */ __CPROVER_ensures((__CPROVER_return_value && GQ == LIN.hi) ==> self->_queue.w == *item) \
-/* P6 refused: queue unchanged          */ __CPROVER_ensures(!__CPROVER_return_value ==> (self->_queue.hi == LIN.hi && self->_queue.lo == LIN.lo)) \
-/* P7 frame: every queued item unchanged */ __CPROVER_ensures(LIN_LIVE(GQ) ==> self->_queue.w == LIN.w) \
-/* P8 a put never opens/closes the queue */ __CPROVER_ensures(self->_closed == LIN.closed) \
-/* P9 closed at entry: refused, unchanged */ __CPROVER_ensures(__CPROVER_old(self->_closed) ==> (!__CPROVER_return_value && LIN_IS_ENTRY)) \
-/* P10 accepted: a consumer is notified */ __CPROVER_ensures(self->_condNotEmpty.n_one == __CPROVER_old(self->_condNotEmpty.n_one) + ((__CPROVER_return_value && __CPROVER_old(self->_condNotEmpty.n_one) < 0x7fffffffu) ? 1 : 0))
+/* the clauses P1..P10 are common to every put and written out in each contract, so that a failing clause is identified by its own text */
 
 bool BlockingQueue_queue_contract(BlockingQueue *self, const uint64_t *item)
 PUT_PRE
-PUT_COMMON
+/* P1 lock released on every path       */ __CPROVER_ensures(!self->_mutex.held)
+/* P2 capacity bound / monitor invariant */ __CPROVER_ensures(BQ_INV(self))
+/* P3 accepted iff open and not full    */ __CPROVER_ensures(__CPROVER_return_value == (!LIN.closed && LIN.hi - LIN.lo < self->_maxSize))
+/* P4 accepted: exactly one item more   */ __CPROVER_ensures(__CPROVER_return_value ==> (self->_queue.hi == LIN.hi + 1 && self->_queue.lo == LIN.lo))
+/* P5 ... it is the argument, at the back */ __CPROVER_ensures((__CPROVER_return_value && GQ == LIN.hi) ==> self->_queue.w == *item)
+/* P6 refused: queue unchanged          */ __CPROVER_ensures(!__CPROVER_return_value ==> (self->_queue.hi == LIN.hi && self->_queue.lo == LIN.lo))
+/* P7 frame: every queued item unchanged */ __CPROVER_ensures(LIN_LIVE(GQ) ==> self->_queue.w == LIN.w)
+/* P8 a put never opens/closes the queue */ __CPROVER_ensures(self->_closed == LIN.closed)
+/* P9 closed at entry: refused, unchanged */ __CPROVER_ensures(__CPROVER_old(self->_closed) ==> (!__CPROVER_return_value && LIN_IS_ENTRY))
+/* P10 accepted: a consumer is notified */ __CPROVER_ensures(self->_condNotEmpty.n_one == __CPROVER_old(self->_condNotEmpty.n_one) + ((__CPROVER_return_value && __CPROVER_old(self->_condNotEmpty.n_one) < 0x7fffffffu) ? 1 : 0))
 /* PB1 blocking put refuses only a closed queue */ __CPROVER_ensures(!__CPROVER_return_value ==> LIN.closed)
 /* PB2 no wait when there is space or closed  */ __CPROVER_ensures((OLD_HAS_SPACE || __CPROVER_old(self->_closed)) ==> LIN_IS_ENTRY)
 ;
 bool BlockingQueue_queueMove_contract(BlockingQueue *self, uint64_t *item)
 PUT_PRE
-PUT_COMMON
+/* P1 lock released on every path       */ __CPROVER_ensures(!self->_mutex.held)
+/* P2 capacity bound / monitor invariant */ __CPROVER_ensures(BQ_INV(self))
+/* P3 accepted iff open and not full    */ __CPROVER_ensures(__CPROVER_return_value == (!LIN.closed && LIN.hi - LIN.lo < self->_maxSize))
+/* P4 accepted: exactly one item more   */ __CPROVER_ensures(__CPROVER_return_value ==> (self->_queue.hi == LIN.hi + 1 && self->_queue.lo == LIN.lo))
+/* P5 ... it is the argument, at the back */ __CPROVER_ensures((__CPROVER_return_value && GQ == LIN.hi) ==> self->_queue.w == *item)
+/* P6 refused: queue unchanged          */ __CPROVER_ensures(!__CPROVER_return_value ==> (self->_queue.hi == LIN.hi && self->_queue.lo == LIN.lo))
+/* P7 frame: every queued item unchanged */ __CPROVER_ensures(LIN_LIVE(GQ) ==> self->_queue.w == LIN.w)
+/* P8 a put never opens/closes the queue */ __CPROVER_ensures(self->_closed == LIN.closed)
+/* P9 closed at entry: refused, unchanged */ __CPROVER_ensures(__CPROVER_old(self->_closed) ==> (!__CPROVER_return_value && LIN_IS_ENTRY))
+/* P10 accepted: a consumer is notified */ __CPROVER_ensures(self->_condNotEmpty.n_one == __CPROVER_old(self->_condNotEmpty.n_one) + ((__CPROVER_return_value && __CPROVER_old(self->_condNotEmpty.n_one) < 0x7fffffffu) ? 1 : 0))
 /* PB1 */ __CPROVER_ensures(!__CPROVER_return_value ==> LIN.closed)
 /* PB2 */ __CPROVER_ensures((OLD_HAS_SPACE || __CPROVER_old(self->_closed)) ==> LIN_IS_ENTRY)
 ;
 bool BlockingQueue_tryQueueFor_contract(BlockingQueue *self, const uint64_t *item)
 PUT_PRE
-PUT_COMMON
+/* P1 lock released on every path       */ __CPROVER_ensures(!self->_mutex.held)
+/* P2 capacity bound / monitor invariant */ __CPROVER_ensures(BQ_INV(self))
+/* P3 accepted iff open and not full    */ __CPROVER_ensures(__CPROVER_return_value == (!LIN.closed && LIN.hi - LIN.lo < self->_maxSize))
+/* P4 accepted: exactly one item more   */ __CPROVER_ensures(__CPROVER_return_value ==> (self->_queue.hi == LIN.hi + 1 && self->_queue.lo == LIN.lo))
+/* P5 ... it is the argument, at the back */ __CPROVER_ensures((__CPROVER_return_value && GQ == LIN.hi) ==> self->_queue.w == *item)
+/* P6 refused: queue unchanged          */ __CPROVER_ensures(!__CPROVER_return_value ==> (self->_queue.hi == LIN.hi && self->_queue.lo == LIN.lo))
+/* P7 frame: every queued item unchanged */ __CPROVER_ensures(LIN_LIVE(GQ) ==> self->_queue.w == LIN.w)
+/* P8 a put never opens/closes the queue */ __CPROVER_ensures(self->_closed == LIN.closed)
+/* P9 closed at entry: refused, unchanged */ __CPROVER_ensures(__CPROVER_old(self->_closed) ==> (!__CPROVER_return_value && LIN_IS_ENTRY))
+/* P10 accepted: a consumer is notified */ __CPROVER_ensures(self->_condNotEmpty.n_one == __CPROVER_old(self->_condNotEmpty.n_one) + ((__CPROVER_return_value && __CPROVER_old(self->_condNotEmpty.n_one) < 0x7fffffffu) ? 1 : 0))
 /* PT2 */ __CPROVER_ensures((OLD_HAS_SPACE || __CPROVER_old(self->_closed)) ==> LIN_IS_ENTRY)
 ;
 bool BlockingQueue_tryQueueForMove_contract(BlockingQueue *self, uint64_t *item)
 PUT_PRE
-PUT_COMMON
+/* P1 lock released on every path       */ __CPROVER_ensures(!self->_mutex.held)
+/* P2 capacity bound / monitor invariant */ __CPROVER_ensures(BQ_INV(self))
+/* P3 accepted iff open and not full    */ __CPROVER_ensures(__CPROVER_return_value == (!LIN.closed && LIN.hi - LIN.lo < self->_maxSize))
+/* P4 accepted: exactly one item more   */ __CPROVER_ensures(__CPROVER_return_value ==> (self->_queue.hi == LIN.hi + 1 && self->_queue.lo == LIN.lo))
+/* P5 ... it is the argument, at the back */ __CPROVER_ensures((__CPROVER_return_value && GQ == LIN.hi) ==> self->_queue.w == *item)
+/* P6 refused: queue unchanged          */ __CPROVER_ensures(!__CPROVER_return_value ==> (self->_queue.hi == LIN.hi && self->_queue.lo == LIN.lo))
+/* P7 frame: every queued item unchanged */ __CPROVER_ensures(LIN_LIVE(GQ) ==> self->_queue.w == LIN.w)
+/* P8 a put never opens/closes the queue */ __CPROVER_ensures(self->_closed == LIN.closed)
+/* P9 closed at entry: refused, unchanged */ __CPROVER_ensures(__CPROVER_old(self->_closed) ==> (!__CPROVER_return_value && LIN_IS_ENTRY))
+/* P10 accepted: a consumer is notified */ __CPROVER_ensures(self->_condNotEmpty.n_one == __CPROVER_old(self->_condNotEmpty.n_one) + ((__CPROVER_return_value && __CPROVER_old(self->_condNotEmpty.n_one) < 0x7fffffffu) ? 1 : 0))
 /* PT2 */ __CPROVER_ensures((OLD_HAS_SPACE || __CPROVER_old(self->_closed)) ==> LIN_IS_ENTRY)
 ;
 bool BlockingQueue_tryQueue_contract(BlockingQueue *self, const uint64_t *item)
 PUT_PRE
 __CPROVER_requires(LIN.lo == self->_queue.lo && LIN.hi == self->_queue.hi && LIN.w == self->_queue.w && LIN.closed == self->_closed) /* non-waiting: LIN is the entry state */
-PUT_COMMON
-/* PN1 never waits */ __CPROVER_ensures(LIN_IS_ENTRY)
+/* P1 lock released on every path       */ __CPROVER_ensures(!self->_mutex.held)
+/* P2 capacity bound / monitor invariant */ __CPROVER_ensures(BQ_INV(self))
+/* P3 accepted iff open and not full    */ __CPROVER_ensures(__CPROVER_return_value == (!LIN.closed && LIN.hi - LIN.lo < self->_maxSize))
+/* P4 accepted: exactly one item more   */ __CPROVER_ensures(__CPROVER_return_value ==> (self->_queue.hi == LIN.hi + 1 && self->_queue.lo == LIN.lo))
+/* P5 ... it is the argument, at the back */ __CPROVER_ensures((__CPROVER_return_value && GQ == LIN.hi) ==> self->_queue.w == *item)
+/* P6 refused: queue unchanged          */ __CPROVER_ensures(!__CPROVER_return_value ==> (self->_queue.hi == LIN.hi && self->_queue.lo == LIN.lo))
+/* P7 frame: every queued item unchanged */ __CPROVER_ensures(LIN_LIVE(GQ) ==> self->_queue.w == LIN.w)
+/* P8 a put never opens/closes the queue */ __CPROVER_ensures(self->_closed == LIN.closed)
+/* P9 closed at entry: refused, unchanged */ __CPROVER_ensures(__CPROVER_old(self->_closed) ==> (!__CPROVER_return_value && LIN_IS_ENTRY))
+/* P10 accepted: a consumer is notified */ __CPROVER_ensures(self->_condNotEmpty.n_one == __CPROVER_old(self->_condNotEmpty.n_one) + ((__CPROVER_return_value && __CPROVER_old(self->_condNotEmpty.n_one) < 0x7fffffffu) ? 1 : 0))
+/* PN1 never waits */ __CPROVER_ensures(LIN_IS_ENTRY && !LIN.waited)
 ;
 bool BlockingQueue_tryQueueMove_contract(BlockingQueue *self, uint64_t *item)
 PUT_PRE
 __CPROVER_requires(LIN.lo == self->_queue.lo && LIN.hi == self->_queue.hi && LIN.w == self->_queue.w && LIN.closed == self->_closed)
-PUT_COMMON
-/* PN1 */ __CPROVER_ensures(LIN_IS_ENTRY)
+/* P1 lock released on every path       */ __CPROVER_ensures(!self->_mutex.held)
+/* P2 capacity bound / monitor invariant */ __CPROVER_ensures(BQ_INV(self))
+/* P3 accepted iff open and not full    */ __CPROVER_ensures(__CPROVER_return_value == (!LIN.closed && LIN.hi - LIN.lo < self->_maxSize))
+/* P4 accepted: exactly one item more   */ __CPROVER_ensures(__CPROVER_return_value ==> (self->_queue.hi == LIN.hi + 1 && self->_queue.lo == LIN.lo))
+/* P5 ... it is the argument, at the back */ __CPROVER_ensures((__CPROVER_return_value && GQ == LIN.hi) ==> self->_queue.w == *item)
+/* P6 refused: queue unchanged          */ __CPROVER_ensures(!__CPROVER_return_value ==> (self->_queue.hi == LIN.hi && self->_queue.lo == LIN.lo))
+/* P7 frame: every queued item unchanged */ __CPROVER_ensures(LIN_LIVE(GQ) ==> self->_queue.w == LIN.w)
+/* P8 a put never opens/closes the queue */ __CPROVER_ensures(self->_closed == LIN.closed)
+/* P9 closed at entry: refused, unchanged */ __CPROVER_ensures(__CPROVER_old(self->_closed) ==> (!__CPROVER_return_value && LIN_IS_ENTRY))
+/* P10 accepted: a consumer is notified */ __CPROVER_ensures(self->_condNotEmpty.n_one == __CPROVER_old(self->_condNotEmpty.n_one) + ((__CPROVER_return_value && __CPROVER_old(self->_condNotEmpty.n_one) < 0x7fffffffu) ? 1 : 0))
+/* PN1 */ __CPROVER_ensures(LIN_IS_ENTRY && !LIN.waited)
 ;
+#define BQ_WAIT_CANARY(h) if (LIN.waited) { IORA_CANARY(#h ": after an environment step"); }
 #define PUT_HARNESS(h, f, cst) void h(void) { BlockingQueue *s; cst uint64_t *it; bool r = f(s, it); IORA_CANARY(#h ": returns"); \
+  if (r) { IORA_CANARY(#h ": accepted"); } else { IORA_CANARY(#h ": refused"); } BQ_WAIT_CANARY(h) }
+#define PUT_HARNESS_NW(h, f, cst) void h(void) { BlockingQueue *s; cst uint64_t *it; bool r = f(s, it); IORA_CANARY(#h ": returns"); \
   if (r) { IORA_CANARY(#h ": accepted"); } else { IORA_CANARY(#h ": refused"); } }
 PUT_HARNESS(h_queue, BlockingQueue_queue, const)
 PUT_HARNESS(h_queueMove, BlockingQueue_queueMove, )
 PUT_HARNESS(h_tryQueueFor, BlockingQueue_tryQueueFor, const)
 PUT_HARNESS(h_tryQueueForMove, BlockingQueue_tryQueueForMove, )
-PUT_HARNESS(h_tryQueue, BlockingQueue_tryQueue, const)
-PUT_HARNESS(h_tryQueueMove, BlockingQueue_tryQueueMove, )
+PUT_HARNESS_NW(h_tryQueue, BlockingQueue_tryQueue, const)
+PUT_HARNESS_NW(h_tryQueueMove, BlockingQueue_tryQueueMove, )
 
 /* ------------------------------------------------------------------ take family */
 #define TAKE_PRE \
@@ -104,44 +150,60 @@ PUT_HARNESS(h_tryQueueMove, BlockingQueue_tryQueueMove, )
   __CPROVER_requires(__CPROVER_is_fresh(out, sizeof(*out))) \
   __CPROVER_assigns(BQ_ASSIGNS_MON, self->_condNotFull.n_one, *out)
 
-#define TAKE_COMMON \
-/* T1 lock released on every path     */ __CPROVER_ensures(!self->_mutex.held) \
-/* T2 monitor invariant               */ __CPROVER_ensures(BQ_INV(self)) \
-/* T3 succeeds iff there is an item (also after close: queued items stay retrievable) */ __CPROVER_ensures(__CPROVER_return_value == (LIN.lo != LIN.hi)) \
-/* T4 success: exactly one item less  */ __CPROVER_ensures(__CPROVER_return_value ==> (self->_queue.lo == LIN.lo + 1 && self->_queue.hi == LIN.hi)) \
-/* T5 ... and it is the FRONT item    */ __CPROVER_ensures((__CPROVER_return_value && GQ == LIN.lo) ==> *out == LIN.w) \
-/* T6 failure: nothing changes        */ __CPROVER_ensures(!__CPROVER_return_value ==> (self->_queue.lo == LIN.lo && self->_queue.hi == LIN.hi && *out == __CPROVER_old(*out))) \
-/* T7 frame: every queued item unchanged */ __CPROVER_ensures(LIN_LIVE(GQ) ==> self->_queue.w == LIN.w) \
-/* T8 a take never opens/closes the queue */ __CPROVER_ensures(self->_closed == LIN.closed) \
-/* T9 success: a producer is notified */ __CPROVER_ensures(self->_condNotFull.n_one == __CPROVER_old(self->_condNotFull.n_one) + ((__CPROVER_return_value && __CPROVER_old(self->_condNotFull.n_one) < 0x7fffffffu) ? 1 : 0))
 
 bool BlockingQueue_dequeue_contract(BlockingQueue *self, uint64_t *out)
 TAKE_PRE
-TAKE_COMMON
+/* T1 lock released on every path     */ __CPROVER_ensures(!self->_mutex.held)
+/* T2 monitor invariant               */ __CPROVER_ensures(BQ_INV(self))
+/* T3 succeeds iff there is an item (also after close: queued items stay retrievable) */ __CPROVER_ensures(__CPROVER_return_value == (LIN.lo != LIN.hi))
+/* T4 success: exactly one item less  */ __CPROVER_ensures(__CPROVER_return_value ==> (self->_queue.lo == LIN.lo + 1 && self->_queue.hi == LIN.hi))
+/* T5 ... and it is the FRONT item    */ __CPROVER_ensures((__CPROVER_return_value && GQ == LIN.lo) ==> *out == LIN.w)
+/* T6 failure: nothing changes        */ __CPROVER_ensures(!__CPROVER_return_value ==> (self->_queue.lo == LIN.lo && self->_queue.hi == LIN.hi && *out == __CPROVER_old(*out)))
+/* T7 frame: every queued item unchanged */ __CPROVER_ensures(LIN_LIVE(GQ) ==> self->_queue.w == LIN.w)
+/* T8 a take never opens/closes the queue */ __CPROVER_ensures(self->_closed == LIN.closed)
+/* T9 success: a producer is notified */ __CPROVER_ensures(self->_condNotFull.n_one == __CPROVER_old(self->_condNotFull.n_one) + ((__CPROVER_return_value && __CPROVER_old(self->_condNotFull.n_one) < 0x7fffffffu) ? 1 : 0))
 /* TB1 blocking take fails only when closed and empty */ __CPROVER_ensures(!__CPROVER_return_value ==> (LIN.closed && LIN.lo == LIN.hi))
 /* TB2 no wait when there is an item or closed       */ __CPROVER_ensures((OLD_NONEMPTY || __CPROVER_old(self->_closed)) ==> LIN_IS_ENTRY)
 ;
 bool BlockingQueue_dequeueFor_contract(BlockingQueue *self, uint64_t *out)
 TAKE_PRE
-TAKE_COMMON
+/* T1 lock released on every path     */ __CPROVER_ensures(!self->_mutex.held)
+/* T2 monitor invariant               */ __CPROVER_ensures(BQ_INV(self))
+/* T3 succeeds iff there is an item (also after close: queued items stay retrievable) */ __CPROVER_ensures(__CPROVER_return_value == (LIN.lo != LIN.hi))
+/* T4 success: exactly one item less  */ __CPROVER_ensures(__CPROVER_return_value ==> (self->_queue.lo == LIN.lo + 1 && self->_queue.hi == LIN.hi))
+/* T5 ... and it is the FRONT item    */ __CPROVER_ensures((__CPROVER_return_value && GQ == LIN.lo) ==> *out == LIN.w)
+/* T6 failure: nothing changes        */ __CPROVER_ensures(!__CPROVER_return_value ==> (self->_queue.lo == LIN.lo && self->_queue.hi == LIN.hi && *out == __CPROVER_old(*out)))
+/* T7 frame: every queued item unchanged */ __CPROVER_ensures(LIN_LIVE(GQ) ==> self->_queue.w == LIN.w)
+/* T8 a take never opens/closes the queue */ __CPROVER_ensures(self->_closed == LIN.closed)
+/* T9 success: a producer is notified */ __CPROVER_ensures(self->_condNotFull.n_one == __CPROVER_old(self->_condNotFull.n_one) + ((__CPROVER_return_value && __CPROVER_old(self->_condNotFull.n_one) < 0x7fffffffu) ? 1 : 0))
 /* TT2 */ __CPROVER_ensures((OLD_NONEMPTY || __CPROVER_old(self->_closed)) ==> LIN_IS_ENTRY)
 ;
 bool BlockingQueue_tryDequeue_contract(BlockingQueue *self, uint64_t *out)
 TAKE_PRE
 __CPROVER_requires(LIN.lo == self->_queue.lo && LIN.hi == self->_queue.hi && LIN.w == self->_queue.w && LIN.closed == self->_closed)
-TAKE_COMMON
-/* TN1 never waits */ __CPROVER_ensures(LIN_IS_ENTRY)
+/* T1 lock released on every path     */ __CPROVER_ensures(!self->_mutex.held)
+/* T2 monitor invariant               */ __CPROVER_ensures(BQ_INV(self))
+/* T3 succeeds iff there is an item (also after close: queued items stay retrievable) */ __CPROVER_ensures(__CPROVER_return_value == (LIN.lo != LIN.hi))
+/* T4 success: exactly one item less  */ __CPROVER_ensures(__CPROVER_return_value ==> (self->_queue.lo == LIN.lo + 1 && self->_queue.hi == LIN.hi))
+/* T5 ... and it is the FRONT item    */ __CPROVER_ensures((__CPROVER_return_value && GQ == LIN.lo) ==> *out == LIN.w)
+/* T6 failure: nothing changes        */ __CPROVER_ensures(!__CPROVER_return_value ==> (self->_queue.lo == LIN.lo && self->_queue.hi == LIN.hi && *out == __CPROVER_old(*out)))
+/* T7 frame: every queued item unchanged */ __CPROVER_ensures(LIN_LIVE(GQ) ==> self->_queue.w == LIN.w)
+/* T8 a take never opens/closes the queue */ __CPROVER_ensures(self->_closed == LIN.closed)
+/* T9 success: a producer is notified */ __CPROVER_ensures(self->_condNotFull.n_one == __CPROVER_old(self->_condNotFull.n_one) + ((__CPROVER_return_value && __CPROVER_old(self->_condNotFull.n_one) < 0x7fffffffu) ? 1 : 0))
+/* TN1 never waits */ __CPROVER_ensures(LIN_IS_ENTRY && !LIN.waited)
 ;
 #define TAKE_HARNESS(h, f) void h(void) { BlockingQueue *s; uint64_t *o; bool r = f(s, o); IORA_CANARY(#h ": returns"); \
+  if (r) { IORA_CANARY(#h ": item"); } else { IORA_CANARY(#h ": none"); } BQ_WAIT_CANARY(h) }
+#define TAKE_HARNESS_NW(h, f) void h(void) { BlockingQueue *s; uint64_t *o; bool r = f(s, o); IORA_CANARY(#h ": returns"); \
   if (r) { IORA_CANARY(#h ": item"); } else { IORA_CANARY(#h ": none"); } }
 TAKE_HARNESS(h_dequeue, BlockingQueue_dequeue)
 TAKE_HARNESS(h_dequeueFor, BlockingQueue_dequeueFor)
-TAKE_HARNESS(h_tryDequeue, BlockingQueue_tryDequeue)
+TAKE_HARNESS_NW(h_tryDequeue, BlockingQueue_tryDequeue)
 
 /* ------------------------------------------------------------------ close / isClosed */
 void BlockingQueue_close_contract(BlockingQueue *self)
 BQ_PRE
-__CPROVER_assigns(self->_closed, self->_condNotEmpty.n_all, self->_condNotFull.n_all)      /* the queue itself is not assignable: queued items stay */
+__CPROVER_assigns(self->_mutex.held, self->_closed, self->_condNotEmpty.n_all, self->_condNotFull.n_all)      /* the queue itself is not assignable: queued items stay */
 /* CL1 */ __CPROVER_ensures(self->_closed)
 /* CL2 first close wakes EVERY waiter of both conditions */
 __CPROVER_ensures(self->_condNotEmpty.n_all == __CPROVER_old(self->_condNotEmpty.n_all) + ((!__CPROVER_old(self->_closed) && __CPROVER_old(self->_condNotEmpty.n_all) < 0x7fffffffu) ? 1 : 0))
@@ -158,7 +220,7 @@ void h_close(void)
 /* ------------------------------------------------------------------ observers */
 void h_observers_contract(BlockingQueue *self)
 BQ_PRE
-__CPROVER_assigns(self->_mutex.held)
+__CPROVER_assigns(G_ld, self->_mutex.held)
 __CPROVER_ensures(!self->_mutex.held)
 ;
 void h_observers_body(BlockingQueue *self)
